@@ -27,7 +27,8 @@ ASSUMPTIONS = ['all randomness of the routines enters through numpy.random.randi
 BOUNDS = {'quick': {'n_rdm': '1..3', 'n_cond': '2..4', 'deviation_bound': 'none (all draws)'},
           'thorough': {'n_rdm': '1..4', 'n_cond': '2..5', 'deviation_bound': 'none (all draws)'}}
 
-RDM_GROUPINGS = ['index', 'rid', 'grp', 'rname']
+RDM_GROUPINGS = ['index', 'rid', 'grp', 'rname', 'ralt']
+RD = ('rid', 'grp', 'rname', 'ralt')
 PAT_GROUPINGS = ['index', 'cid', 'cat', 'name', 'pgrp']
 
 
@@ -91,7 +92,7 @@ def _execute(cfg, env):
     """one execution of the real routine under the environment `env`; returns observation dict"""
     from rsatoolbox.inference import bootstrap as B
     routine, n_rdm, n_cond, rd, pdn, cont = cfg
-    rdms = selfdesc.build(list(range(n_rdm)), list(range(n_cond)), container=cont)
+    rdms = selfdesc.build(list(range(n_rdm)), list(range(n_cond)), container=cont, rdm_desc=RD)
     model = selfdesc.build([9], list(range(n_cond)), container=cont)
     before = (rdms.dissimilarities.copy(), repr(rdms.rdm_descriptors), repr(rdms.pattern_descriptors))
     rng = rngenv.RngEnv(env)
@@ -177,7 +178,7 @@ def _judge(cfg, obs, ctx, case):
         ctx.fail(sigp + '|condition-multiset', case, 'sample holds conditions %r, drawn groups give %r' % (cids, dict(want_c)))
     # 3. every entry is the source value of its own labels; NaN iff two copies of one condition;
     #    all descriptor values travel with their item
-    for kind, msg in selfdesc.verify(sample, rdm_desc=('rid', 'grp', 'rname'),
+    for kind, msg in selfdesc.verify(sample, rdm_desc=RD,
                                      pat_desc=('cid', 'name', 'cat', 'pgrp')):
         ctx.fail(sigp + '|' + kind, case, msg)
     if not obs['source_unchanged']:
